@@ -191,7 +191,9 @@ def replays(argv):
     from .launcher import replay
 
     rc = 0
-    files = sorted(glob.glob(os.path.join(VERIF, "findings", "*.json")))
+    # regressions/: histories on which an earlier version of a check raised a false
+    # alarm; they must stay quiet on the current tree as well
+    files = sorted(glob.glob(os.path.join(VERIF, "findings", "*.json"))) + sorted(glob.glob(os.path.join(VERIF, "regressions", "*.json")))
     for f in files:
         with open(f) as fh:
             prop = json.load(fh)["property"]
